@@ -13,6 +13,7 @@ import (
 	"github.com/yandex/pandora/core"
 	"github.com/yandex/pandora/core/aggregator/netsample"
 	"github.com/yandex/pandora/core/coreutil"
+	"github.com/yandex/pandora/core/warmup"
 
 	"verifsim/simrt"
 )
@@ -31,6 +32,7 @@ type Ev struct {
 	Err  string
 	Ptr  any
 	Src  string // which schedule (RecSchedule.Name)
+	Pool int
 }
 
 // Log is the shared event log of a run.
@@ -102,7 +104,7 @@ func (f *GunFactory) New() (core.Gun, error) {
 	k := f.created
 	f.created++
 	if f.Script.NewErrAt == k {
-		f.Log.Add(Ev{Kind: "gun-new", N: k, Err: "gun factory failure"})
+		f.Log.Add(Ev{Kind: "gun-new", N: k, Err: fmt.Sprintf("injected gun factory failure #%d", k)})
 		return nil, fmt.Errorf("injected gun factory failure #%d", k)
 	}
 	g := &Gun{f: f, idx: k, inst: -1}
@@ -131,11 +133,21 @@ func (g *Gun) Bind(aggr core.Aggregator, deps core.GunDeps) error {
 	g.aggr = aggr
 	g.deps = deps
 	if g.f.Script.BindErrInst == deps.InstanceID {
-		g.f.Log.Add(Ev{Kind: "gun-bind", Inst: g.inst, Err: "bind failure", Ptr: g})
+		g.f.Log.Add(Ev{Kind: "gun-bind", Inst: g.inst, Err: fmt.Sprintf("injected bind failure for instance %d", deps.InstanceID), Ptr: g})
 		return fmt.Errorf("injected bind failure for instance %d", deps.InstanceID)
 	}
 	g.f.Log.Add(Ev{Kind: "gun-bind", Inst: g.inst, Ptr: g})
 	return nil
+}
+
+// WarmUp makes every stub gun a warmup.WarmedUp; only the pool's first gun is asked.
+func (g *Gun) WarmUp(opts *warmup.Options) (interface{}, error) {
+	if g.f.Script.WarmUpErr {
+		g.f.Log.Add(Ev{Kind: "warmup", Err: "injected warm-up failure"})
+		return nil, fmt.Errorf("injected warm-up failure")
+	}
+	g.f.Log.Add(Ev{Kind: "warmup"})
+	return nil, nil
 }
 
 func (g *Gun) Shoot(ammo core.Ammo) {
@@ -148,7 +160,7 @@ func (g *Gun) Shoot(ammo core.Ammo) {
 	g.f.Log.Add(Ev{Kind: "shoot-in", Inst: g.inst, Ammo: ammo, N: k, Ptr: g})
 	if g.f.Script.PanicInst == g.inst && g.f.Script.PanicShot == k {
 		g.inShoot = false
-		g.f.Log.Add(Ev{Kind: "shoot-panic", Inst: g.inst, N: k})
+		g.f.Log.Add(Ev{Kind: "shoot-panic", Inst: g.inst, N: k, Err: fmt.Sprintf("injected shot panic inst=%d shot=%d", g.inst, k)})
 		panic(fmt.Sprintf("injected shot panic inst=%d shot=%d", g.inst, k))
 	}
 	if d := g.f.Script.ShotDur(g.inst, k); d > 0 {
